@@ -168,6 +168,7 @@ func (e Engine) Run(t *simrt.Tape, c simrt.Case, x *simrt.Ctx) *simrt.Result {
 	}
 
 	var text []byte
+	paddedCase := false
 	var want []gen.Tok
 	var wantPos []gen.Pos
 	if c.Args[0] >= 0 {
@@ -197,6 +198,7 @@ func (e Engine) Run(t *simrt.Tape, c simrt.Case, x *simrt.Ctx) *simrt.Result {
 		}
 	} else {
 		var s *gen.Spec
+		padded := false
 		st := gen.Style{SepSeed: uint64(t.Draw(1 << 30)), FinalNL: 1, Tight: t.Chance(1, 4)}
 		if c.Args[0] == -2 {
 			s = gen.GenLargeSpec(t, 150+t.Draw(200))
@@ -211,12 +213,21 @@ func (e Engine) Run(t *simrt.Tape, c simrt.Case, x *simrt.Ctx) *simrt.Result {
 			res.Count("deeply_nested_specifications", 1)
 		} else {
 			s = gen.GenSpec(t, gen.GenOpts{})
+			// every fourth of them with a long stretch of insignificant text (blanks, newlines, one or
+			// many comments: more than the reader's buffer holds) in front of a token somewhere inside
+			if t.Chance(1, 4) {
+				padded, paddedCase = true, true
+				st.PadKind = t.Draw(5)
+				st.MidGap = 1 + t.Draw(len(s.Toks))
+				st.MidPad = ebnflexer.VerifBufferSize - 200 + t.Draw(2*ebnflexer.VerifBufferSize)
+				res.Count("specifications_with_long_insignificant_stretch", 1)
+			}
 		}
 		lay := gen.Render(s, st)
 		if err := lay.Check(s); err != nil {
 			panic("layout self-check: " + err.Error())
 		}
-		if c.Args[0] == -2 || c.Args[0] == -3 {
+		if c.Args[0] == -2 || c.Args[0] == -3 || padded {
 			// Multi-buffer input: choose a leading padding for which no lexeme other than the first
 			// starts at k*B-1, the input-computable signature of the dependency's double-reload
 			// defect (C13's known finding), so that reader defects cannot leak into this verdict.
@@ -247,7 +258,7 @@ func (e Engine) Run(t *simrt.Tape, c simrt.Case, x *simrt.Ctx) *simrt.Result {
 			wantPos = append(wantPos, lay.TokPos[idx])
 		}
 	}
-	if len(text) >= 4000 && c.Args[0] == -1 {
+	if len(text) >= 4000 && c.Args[0] == -1 && !paddedCase {
 		res.Skipped++
 		return res
 	}
